@@ -32,6 +32,10 @@ type c12Seg struct {
 
 type c12Case struct {
 	Roach      bool     `json:"roach"`
+	Direct     bool     `json:"direct,omitempty"`   // constructor called directly with (Frac, Drop, BiasFrac)
+	Frac       int      `json:"frac,omitempty"`     // fraction bits (direct mode)
+	Drop       int      `json:"drop,omitempty"`     // low bits dropped (direct mode)
+	BiasFrac   float64  `json:"biasfrac,omitempty"` // bias as a fraction of one quantum (direct mode)
 	Rescale    bool     `json:"rescale"`
 	Unwrap     bool     `json:"unwrap"`
 	Bias       bool     `json:"bias"`
@@ -60,6 +64,20 @@ func c12Gen(t *rapid.T) c12Case {
 	frac, drop := 16, 4
 	if c.Roach {
 		frac, drop = 14, 2
+	} else if rapid.IntRange(0, 4).Draw(t, "direct") == 0 {
+		// the public constructor with arbitrary geometry: any fraction bits / dropped bits / bias fraction
+		c.Direct = true
+		c.Rescale, c.Unwrap = true, rapid.IntRange(0, 5).Draw(t, "unwrapd") != 0
+		c.Frac = rapid.IntRange(12, 16).Draw(t, "frac")
+		c.Drop = rapid.IntRange(1, 8).Draw(t, "drop")
+		if c.Drop > c.Frac-2 {
+			c.Drop = c.Frac - 2
+		}
+		c.BiasFrac = 0
+		if c.Bias {
+			c.BiasFrac = rapid.SampledFrom([]float64{0.38, -0.38, 0.1, -0.25, 0.45, -0.45, 0.01}).Draw(t, "biasfrac")
+		}
+		frac, drop = c.Frac, c.Drop
 	}
 	Q := 1 << frac // one quantum in raw units
 	_ = drop
@@ -185,6 +203,10 @@ func (c c12Case) newUnwrapper() *PhaseUnwrapper {
 	if c.Roach {
 		return c12RoachUnwrapper(c.Bias, c.PulseSign)
 	}
+	if c.Direct {
+		level := int(math.Round(c.BiasFrac * float64(int(1)<<uint(c.Frac))))
+		return NewPhaseUnwrapper(uint(c.Frac), uint(c.Drop), c.Unwrap, level, c.ResetAfter, c.PulseSign, c.Invert)
+	}
 	opt := AbacoUnwrapOptions{RescaleRaw: c.Rescale, Unwrap: c.Unwrap, Bias: c.Bias, ResetAfter: c.ResetAfter, PulseSign: c.PulseSign}
 	if c.Invert {
 		opt.InvertChan = []int{7}
@@ -236,6 +258,11 @@ func c12Run(c c12Case) (v vVerdict) {
 	frac, drop := uint(16), uint(0)
 	if c.Roach {
 		frac, drop = 14, 2
+	} else if c.Direct {
+		if c.Frac < 8 || c.Frac > 16 || c.Drop < 1 || c.Drop > c.Frac-2 || math.Abs(c.BiasFrac) > 0.45 {
+			return v
+		}
+		frac, drop = uint(c.Frac), uint(c.Drop)
 	} else if c.Rescale {
 		drop = 4
 	}
@@ -268,7 +295,9 @@ func c12Run(c c12Case) (v vVerdict) {
 	}
 	Q := int(1) << (frac - drop)
 	bias := 0.0
-	if c.Bias {
+	if c.Direct {
+		bias = c.BiasFrac * float64(Q)
+	} else if c.Bias {
 		bias = 0.38 * float64(Q)
 		if c.PulseSign < 0 {
 			bias = -bias
@@ -281,7 +310,14 @@ func c12Run(c c12Case) (v vVerdict) {
 	if int(home)%Q != 0 {
 		return vFailf("home-not-quantum", "home offset %d is not a whole number of quanta (%d)", home, Q)
 	}
+	slack := 1.0 // floor vs. round of the bias level
+	if c.Direct {
+		slack = 1.5 // rounding to raw units, then flooring by the bit drop
+	}
 	N := c.ResetAfter
+	if N <= 0 {
+		return v
+	}
 	prevOut := home
 	awayRun := 0
 	unwraps, resets := 0, 0
@@ -293,7 +329,7 @@ func c12Run(c c12Case) (v vVerdict) {
 			return vFailf("not-congruent", "sample %d: output %d minus input value %d is not a whole number of quanta (%d)", i, out, val(i), Q)
 		}
 		step := float64(int16(out - prevOut))
-		inWindow := math.Abs(step-bias) <= float64(Q)/2+1
+		inWindow := math.Abs(step-bias) <= float64(Q)/2+slack
 		if !inWindow {
 			// must be a legitimate automatic reset
 			if off != home {
@@ -328,6 +364,9 @@ func c12Run(c c12Case) (v vVerdict) {
 		if resets > 0 {
 			v.Classes = append(v.Classes, "roach-auto-reset")
 		}
+	}
+	if c.Direct {
+		v.Classes = append(v.Classes, "direct-constructor")
 	}
 	if c.Bias {
 		v.Classes = append(v.Classes, "biased")
